@@ -461,6 +461,13 @@ def known_signatures(fails):
     """listed findings: (1) the token stream is right and only the printed text glues tokens;
     (2) the case passes once identifiers beginning with u8 are renamed (causal test, one batch)"""
     sigs = [("C09:E-text-glued-tokens" if f.get("kind") == "text" else None) for f in fails]
+    for i, f in enumerate(fails):
+        # ## with an empty operand ate a neighbouring space: the only difference is white space inside strings
+        if (sigs[i] is None and "##" in f["src"] and not f["c2m_err"] and len(f["spec"]) == len(f["c2m"])
+                and all(a == b or (a[:1] == '"' and b[:1] == '"' and a != b
+                                   and re.sub(r"[ \x01]", "", a) == re.sub(r" ", "", b))
+                        for a, b in zip(f["spec"], f["c2m"]))):
+            sigs[i] = "C09:paste-empty-operand-eats-space"
     idx, ren = [], []
     for i, f in enumerate(fails):
         if sigs[i] is None and "u8" in f["src"]:
@@ -682,6 +689,62 @@ def report_expr_fails(fails, trees=None):
                      what="c2m selects a different #if group than C11/gcc", signature=None)
 
 
+def judge_gcc_only(family, cases):
+    """reference = gcc alone (forms the Lean specification does not cover); c2m's token stream and its
+    re-lexed -E text must equal gcc's tokens"""
+    srcs = [G.render_case(c) for c in cases]
+    g = run_gcc_many(srcs)
+    sel = [i for i in range(len(cases)) if not g[i]["err"] and len(g[i]["t"]) <= MAX_TOKS]
+    cc = run_harness(HARNESS, [srcs[i] for i in sel]) if sel else []
+    fs = fam_stats.setdefault(family, {"cases": 0, "agree": 0, "discarded": 0, "c2m_ne": 0, "nontrivial": 0})
+    fs["cases"] += len(cases)
+    fs["discarded"] += len(cases) - len(sel)
+    stats["cases"] += len(cases)
+    stats["gcc_only_reference"] = stats.get("gcc_only_reference", 0) + len(sel)
+    fails = []
+    for k, i in enumerate(sel):
+        ci = cc[k]
+        if ci["err"] == "not-run":
+            continue
+        if srcs[i] not in seen_canon:
+            seen_canon.add(srcs[i]); fs["nontrivial"] += 1
+        bad = bool(ci["err"]) or not (G.toks_match(g[i]["t"], ci["t"]) or G.glued_match(ci["t"], g[i]["t"]))
+        if not bad and ci.get("txt") is not None and G.pp_tokenize(ci["txt"]) != list(ci["t"]):
+            bad = True
+        if bad:
+            fs["c2m_ne"] += 1
+            stats["c2m_ne"] += 1
+            fails.append({"family": family, "case": cases[i], "src": srcs[i], "gcc": g[i]["t"], "c2m": ci["t"],
+                          "c2m_err": ci["err"]})
+        else:
+            fs["agree"] += 1
+            stats["agree"] += 1
+    return fails
+
+
+def gcc_only_fails_now(case):
+    src = G.render_case(case)
+    gi = run_gcc(src)
+    if gi["err"]:
+        return False
+    ci = run_harness(HARNESS, [src])[0]
+    return bool(ci["err"]) or not (G.toks_match(gi["t"], ci["t"]) or G.glued_match(ci["t"], gi["t"]))
+
+
+def shrink_lines(case, pred, budget=60):
+    cur, n = [dict(l) for l in case], 0
+    changed = True
+    while changed and n < budget:
+        changed = False
+        for i in range(len(cur)):
+            n += 1
+            cand = cur[:i] + cur[i + 1:]
+            if cand and pred(cand):
+                cur = cand; changed = True
+                break
+    return cur
+
+
 # ------------------------------------------------------------------ replay of one saved case
 if ck.replay:
     with open(ck.replay) as fh:
@@ -691,6 +754,17 @@ if ck.replay:
         fl = judge_exprs([inp["toks"]], "replay")
         report_expr_fails(fl)
         ck.log("replay expr:", "FAILS" if fl else "passes")
+    elif inp.get("kind") == "case-gcc-only":
+        case = [dict(l) for l in inp["case"]]
+        for l in case:
+            for k in ("toks", "repl"):
+                if k in l:
+                    l[k] = [tuple(t) for t in l[k]]
+        bad = gcc_only_fails_now(case)
+        if bad:
+            ck.violation({"stage": "tie", "input": inp, "how_to_rerun": "cd /verif && ./check C09 --replay <this file>"},
+                         what="replayed case: c2m differs from gcc", signature=None)
+        ck.log("replay case (gcc only):", "FAILS" if bad else "passes")
     elif inp.get("kind") == "case":
         case = [dict(l) for l in inp["case"]]
         for l in case:
@@ -723,6 +797,16 @@ if os.path.isdir(corpus_dir):
                     got = "T0" in b["squeezed"]
                     ifstats.setdefault("binary_replays", []).append({"expr": item["expr"], "c2m_binary_true_group": got,
                                                                      "gcc_true_group": item["gcc_group"]})
+            elif item.get("kind") == "source-gcc-only":
+                lines = G.parse_source(item["source"])
+                for f in judge_gcc_only("corpus", [lines]):
+                    sg = item.get("signature")
+                    ck.violation({"stage": "tie", "theorem_or_correspondence": "c2m token sequence == gcc",
+                                  "input": {"kind": "case-gcc-only", "family": "corpus", "case": lines, "source": item["source"]},
+                                  "gcc_output": f["gcc"], "impl_output": f["c2m"], "impl_errors": f["c2m_err"],
+                                  "how_to_rerun": "cd /verif && ./check C09 --replay <this file>"},
+                                 what=f"c2m differs from gcc on a corpus case ({sg})",
+                                 signature=None if os.environ.get("C09_NO_KNOWN") else sg)
             elif item.get("kind") == "source":
                 lines = G.parse_source(item["source"])
                 report_token_fails(judge_cases("corpus", [lines], lambda c, t: True))
@@ -770,6 +854,43 @@ run_family("macro-random", NA, lambda: G.MacroGen(ck.rng))
 run_family("stringify-direct", NB, lambda: G.StrGen(ck.rng))
 run_family("sharp-then-param", NC, lambda: G.SharpGen(ck.rng))
 run_family("conditional-with-macros", NE, lambda: G.CondGen(ck.rng))
+
+run_family("stringified-paste-empty-operand", 800 if QUICK else 8000, lambda: G.StrPasteGen(ck.rng))
+
+
+OPEN_SIG = "C09:args-across-two-replacement-ends"
+oc_fails = []
+NO = 600 if QUICK else 6000
+for k in range(0, NO, 400):
+    cs = []
+    for _ in range(min(400, NO - k)):
+        g_ = G.OpenCallGen(ck.rng)
+        cs.append(g_.gen_case()); merge_stats(g_.stats)
+    oc_fails += judge_gcc_only("open-call", cs)
+n_oc_unlisted = 0
+for f in oc_fails:
+    # listed finding: the argument list runs past the ends of two (or more) nested replacement lists
+    deep = sum(1 for l in f["case"] if l["k"] == "define" and l["name"] in ("O2", "O3")) >= 1
+    sg = OPEN_SIG if deep and not os.environ.get("C09_NO_KNOWN") else None
+    if sg:
+        _sig_seen[sg] = _sig_seen.get(sg, 0) + 1
+        if _sig_seen[sg] > 1:
+            continue
+        small = f["case"]
+    else:
+        n_oc_unlisted += 1
+        if n_oc_unlisted > 3:
+            continue
+        small = shrink_lines(f["case"], gcc_only_fails_now)
+    src = G.render_case(small)
+    ci = run_harness(HARNESS, [src])[0]
+    ck.violation({"stage": "tie", "theorem_or_correspondence": "c2m token sequence == gcc (form outside the Lean specification)",
+                  "input": {"kind": "case-gcc-only", "family": "open-call", "case": small, "source": src},
+                  "gcc_output": run_gcc(src)["t"], "impl_output": ci["t"], "impl_errors": ci["err"],
+                  "how_to_rerun": "cd /verif && ./check C09 --replay <this file>"},
+                 what="an invocation whose argument list is closed outside the replacement list it starts in is "
+                      "expanded differently from gcc" + (f" ({sg})" if sg else ""), signature=sg)
+ck.stage("open-call", n=NO, fails=len(oc_fails), t=round(time.time() - T0, 1))
 
 # line ends x directives (enumerated)
 le_cases = G.line_end_cases(not QUICK)
